@@ -26,8 +26,8 @@ def prebuild():
 def run(chk):
     shards = 16
     relabels = vf.tier_n(chk.tier, 6, 20)
-    classes = vf.tier_n(chk.tier, 14, 200)
-    rnd = vf.tier_n(chk.tier, 6, 60)
+    classes = vf.tier_n(chk.tier, 14, 120)
+    rnd = vf.tier_n(chk.tier, 6, 40)
     h = vf.build_harness("asan", "c16")
     env = vf.lib_env("asan")
     chk.rule = RULE
@@ -54,3 +54,23 @@ def run(chk):
         "graphs handed to exploreGraph / decouple / reduce come from a fresh "
         "BeadStructure (isStructureEquivalent leaves its distance labels in "
         "the cached graph, which is not part of the statement)"]
+
+
+def replay(path):
+    """re-run all monitors on the graph of a witness (natural labelling plus
+    fresh random relabellings)"""
+    import json
+    w = json.load(open(path))
+    wit = w.get("witness", {})
+    print(json.dumps(w, indent=1)[:4000])
+    if "reference_edges" not in wit:
+        return 0
+    h = vf.build_harness("asan", "c16")
+    res = vf.run_proc([h, "--seed", str(w.get("seed", 1)), "--relabels", "40",
+                       "--graph", wit["reference_edges"]],
+                      env=vf.lib_env("asan"), timeout=900)
+    print(res.out[-3000:], res.err[-2000:])
+    if '"t":"violation"' in res.out or res.rc != 0:
+        print("VIOLATION property=C16 replay=%s" % path)
+        return 1
+    return 0
